@@ -14,7 +14,7 @@ import vlib
 from checks import progen, proglib, trygen
 from checks.common import Case, observe, judge_case
 
-LEVEL = "exploration"
+LEVEL = "translation_validation"
 PROP = "C23"
 
 KERNELS = {
